@@ -57,6 +57,7 @@ def process_failures(pid, tier, seed, spaces, aggs):
     known = findings.load(pid)
     violations = {}     # sig -> (replay path, text)
     known_hits = {}
+    bulk_seen = {}
     for sp, a in zip(spaces, aggs):
         for f in a['fails']:
             if len(violations) >= core.MAX_SIGNATURES:
@@ -74,6 +75,9 @@ def process_failures(pid, tier, seed, spaces, aggs):
                 desc = None
             else:
                 desc, path, exp, obs = f
+                bulk_seen[(sp.name, path)] = bulk_seen.get((sp.name, path), 0) + 1
+                if bulk_seen[(sp.name, path)] > 3:
+                    continue
                 labels = [str(desc)]
                 choices = None
                 fail = (path, exp, obs)
